@@ -66,6 +66,13 @@ class MaterialFile(BaseMaterial):
         Returns:
             float or numpy.ndarray: The refractive index(s) of the material.
         """
+        # integer wavelengths (e.g. np.array([1, 2])) are wavelengths too: the
+        # dispersion formulas raise them to negative and fractional powers
+        if isinstance(wavelength, np.ndarray):
+            if wavelength.dtype.kind in 'iu':
+                wavelength = wavelength.astype(float)
+        elif isinstance(wavelength, (int, np.integer)):
+            wavelength = float(wavelength)
         func = self.formula_map[self._n_formula]
         return func(wavelength)
 
